@@ -74,6 +74,13 @@ def pname(names, k):
     return None
 
 
+def late_name(f, names, n):
+    """partly named programs: every other one names its function AFTER declaring it (set_name), the others keep
+    the default identifier Function_<counter>"""
+    if names == "mixed" and n % 2 == 1:
+        f.set_name("late")
+
+
 def replay(cls, P, h, names="none"):
     """-> (pep, f, partition, exc).  names: "none" | "all" | "mixed" (mixed also declares another function first, so
     that the default function id is not Function_0).  An exception raised by a PEPit call is an observation."""
@@ -83,6 +90,7 @@ def replay(cls, P, h, names="none"):
     if names == "mixed":
         pep.declare_function(ConvexFunction)
     f, part = declare(pep, cls, P, fname="fn" if names == "all" else None)
+    late_name(f, names, len(h))
     exc = ""
     k = 0
     try:
